@@ -258,8 +258,11 @@ def gen_ops(L: Layouts, idx: Dict[str, int], rng: random.Random, tier: str) -> L
     for fn, v in [("int8", V_int(1)), ("s5", V_str("a"))]:
         op("VM_SCALARS", fn, v, key=["i", 0], tag="scalar-key", mode=0)   # zero image: the getter must not fail first
     # --- histories on one string field are exercised by C10; here: every prefix length of String(5)
-    for s in ["", "a", "ab", "abc", "abcd", "abcde", "ab\x00cd", "\x00abc"]:
+    for s in ["", "a", "ab", "abc", "abcd", "abcde", "ab\x00cd", "\x00abc", "ab\x00c", "a\x00bc", "abc\x00", "\x00", "\x00\x00",
+              "a\x00\x00b", "\x7f\x00\x7f", "\x01\x00\x1f", "\x7f\x1f\x01\x7f"]:
         op("VM_SCALARS", "s5", V_str(s), tag="string", mode=1)
+        op("VM_SCALARS", "s5", V_str(s), tag="string", mode=0)
+        op("VM_SCALARS", "s5", V_str(s), tag="string", mode=2)
         op("VM_SCALARS", "s5", V_str(s), tag="string-off", mode=1, enabled=False)
     # --- arrays
     arr_ops: List[tuple] = []
